@@ -23,7 +23,7 @@ SPEC = {
             "(FIPS 203 resp. round-3 Kyber written from the specification; self-tested against NIST ACVP vectors and the round-3 KAT digests). "
             "non-trivial = decapsulation/decryption of a non-honest ciphertext (bit-flipped, random, compressed-field boundary patterns, ciphertexts steered so that v-s.u sits on a Compress_1 rounding boundary, honest ciphertext of another m), "
             "single-bit flips of one honest ciphertext per parameter set (thorough: every bit; quick: every bit of the last 256 and first 32 bytes plus every 8th bit elsewhere, offset rotating with the seed), parsing of a malformed key (coefficient in [q,4096), corrupted H(ek), wrong length) or of a well-formed variant (incl. consistent keys with edge matrix seeds rho = 0^32, 1^32, one bit, and Unpack into a key object that held another key), keys with unreduced coefficients at the K-PKE level, "
-            "an object history (another key decoded into a related key object, then every live object compared with the key it should hold), a typed *To call with overlapping caller buffers (KEM level and K-PKE level: pt / seed inside ct for EncryptTo, pt inside ct for DecryptTo), a key whose input buffers (seed, encodings, encapsulation seed, ciphertexts) were overwritten after each call and which is then compared with the reference for the original bytes, a vector run by 8 goroutines concurrently (incl. first use of freshly parsed keys by 4 goroutines released together), a CBD PRF stream, an NTT boundary polynomial, a four-way sampling call whose lanes finish in different SHAKE128 blocks; distinct by FNV-64 of the case. "
+            "an object history (another key decoded into a related key object, then every live object compared with the key it should hold), a typed *To call with overlapping caller buffers (KEM level and K-PKE level: pt / seed inside ct for EncryptTo, pt inside ct for DecryptTo), a key whose input buffers (seed, encodings, encapsulation seed, ciphertexts) were overwritten after each call and which is then compared with the reference for the original bytes, an object whose returned slices (MarshalBinary of ek/dk/Public(), ct, K; spare capacity included) were overwritten and which is then observed again, a vector run by 8 goroutines concurrently (incl. first use of freshly parsed keys by 4 goroutines released together), a CBD PRF stream, an NTT boundary polynomial, a four-way sampling call whose lanes finish in different SHAKE128 blocks; distinct by FNV-64 of the case. "
             "White-box helper sweeps (barrettReduce, toMont, csubq, montReduce over its whole documented domain of 218 169 344 values, Compress_d/Decompress_d for d in {1,4,5,10,11} at all 256 positions, "
             "Pack/Unpack, Normalize/BarrettReduce, all 65 536 monomial products and all sign-pattern polynomials through NTT/MulHat/InvNTT on the generic and the AVX2 back-end) are complete enumerations "
             "listed under exhaustive_subdomains; they dominate the evaluation count and are not counted as non-trivial",
